@@ -204,6 +204,14 @@ func Exec(st Step, pool []*modeling.Mesh) (res modeling.Mesh, hasRes bool, ok bo
 			ts[i] = toTRS(p)
 		}
 		res = repeat.Mesh(src(0), ts)
+	case "Normalize":
+		res = meshops.NormalizeAttribute3D(src(0), project.AttrName(st.i("id")))
+	case "FlatNormals":
+		res = meshops.FlatNormals(src(0))
+	case "SmoothNormals":
+		res = meshops.SmoothNormals(src(0))
+	case "Laplacian":
+		res = meshops.LaplacianSmooth(src(0), project.AttrName(st.i("id")), st.i("iters"), 1.0)
 	case "Export":
 		hasRes = false
 		export(src(0), st.str("fmt"))
